@@ -25,6 +25,7 @@ import tempfile
 VERIF = os.path.dirname(os.path.dirname(os.path.abspath(__file__)))
 # ./check is run from here: a snapshot of /verif (git archive) keeps a long sweep independent of edits made meanwhile
 CHECK_DIR = os.environ.get("VERIF_SNAPSHOT", VERIF)
+REPO_REV = os.environ.get("SWEEP_REPO_REV", "HEAD")   # pin the commit of /repo a long sweep runs against
 PROPS = [json.loads(l) for l in open(os.path.join(VERIF, "properties.jsonl"))]
 
 CMP = {ast.Lt: ast.LtE, ast.LtE: ast.Lt, ast.Gt: ast.GtE, ast.GtE: ast.Gt, ast.Eq: ast.NotEq, ast.NotEq: ast.Eq,
@@ -133,7 +134,7 @@ def run_mutant(rel, src_text, m_id, desc, line, props, jobs):
     tmp = tempfile.mkdtemp(prefix="/tmp/mutsweep_")
     res = {"id": m_id, "line": line, "what": desc}
     try:
-        sh(f"git -C /repo archive HEAD pyairtouch tests pyproject.toml | tar -x -C {tmp}")
+        sh(f"git -C /repo archive {REPO_REV} pyairtouch tests pyproject.toml | tar -x -C {tmp}")
         with open(os.path.join(tmp, rel), "w") as f:
             f.write(src_text)
         env = dict(os.environ, PYTHONPATH=tmp)
